@@ -85,6 +85,8 @@ pub struct World {
     pub rearmed: [bool; M],
     /// group harnesses: 11 = FutureGroup, 12 = StreamGroup (0 = not a group)
     pub group_fam: u8,
+    /// wake-ups issued from inside a child's poll (self or sibling) so far
+    pub inpoll_wakes: u8,
 
     /// Invocation count per parent waker (one waker per round).
     pub pwakes: [u8; RMAX],
@@ -129,6 +131,7 @@ pub const WORLD0: World = World {
     opts: 3,
     rearmed: [false; M],
     group_fam: 0,
+    inpoll_wakes: 0,
     pwakes: [0; RMAX],
     child_state: [0; M],
     val_state: [[0; KMAX]; M],
@@ -488,6 +491,7 @@ fn pending_side_effects(id: usize, cx: &Context<'_>) {
         let w = w();
         w.woken[id] = true;
         w.fired_any[id] = true;
+        w.inpoll_wakes = w.inpoll_wakes.saturating_add(1);
         cx.waker().wake_by_ref();
     }
     if d & 2 != 0 {
@@ -495,6 +499,7 @@ fn pending_side_effects(id: usize, cx: &Context<'_>) {
         let n = w().n;
         let j = ((d >> 2) & 3) as usize;
         if j < n && j != id {
+            w().inpoll_wakes = w().inpoll_wakes.saturating_add(1);
             fire_sibling(j);
         }
     }
